@@ -32,19 +32,18 @@ theorem NameOk.cases {b : Bytes} (h : NameOk b) :
 
 theorem checksOk_eq (H : Hashes) (c : Bytes) (x : Cks) : StoreSpec.checksOk H c x = FsStore.checksOk H c x := rfl
 
-/-- `put_object` may be compared with the store: names agree, and when they are admissible the bucket exists
-    [else: fs:put-into-missing-bucket], the path is free [else: fs:leftover-directory / not prefix-free], the side
-    file names fit [fs:long-key-internal-error], and a request without metadata does not meet an old metadata
-    file [fs:stale-metadata-after-overwrite, fs:metadata-survives-delete] -/
-def PutOk (s : State) (b k : Bytes) (md : Option Meta) : Prop :=
-  NameOk b ∧ CanonKey k ∧ sideTooLong b k false = false ∧ (md = none → alLookup (b, k) s.metas = none) ∧
+/-- `put_object` may be compared with the store: names agree, the side-file names fit [else
+    fs:long-key-internal-error], the key is canonical [fs:key-normalised, fs:directory-key] and, when the bucket exists,
+    its path is free (prefix-freedom; fs:leftover-directory) -/
+def PutOk (s : State) (b k : Bytes) : Prop :=
+  NameOk b ∧ CanonKey k ∧ sideTooLong b k false = false ∧
   (bucketOk b = true →
-    match keyPath k with
+    match s.tree b with
     | none => True
-    | some p =>
-      match s.tree b with
-      | none => False
-      | some t => WriteOk t p)
+    | some t =>
+      match keyPath k with
+      | none => True
+      | some p => WriteOk t p)
 
 theorem abs_uploads_congr {s s' : State} (h1 : s'.uploads = s.uploads) (h2 : s'.upMetas = s.upMetas)
     (h3 : s'.parts = s.parts) : (abs s').uploads = (abs s).uploads := by
@@ -86,9 +85,8 @@ theorem inv_write_buckets {s : State} (hi : Inv s) {b : Bytes} {t ds : Tree} {p 
 theorem put_core {s s' : State} (hi : Inv s) {b k c : Bytes} {md : Option Meta} {cks : Cks} {t ds : Tree} {p : Path}
     (ht : s.tree b = some t) (hp : PathOk p) (hcanon : joinWith [slash] p = k) (hw : t.node p ≠ some Node.dir)
     (hds : ∀ e ∈ ds, e.2 = Node.dir ∧ e.1 ∈ prefixes p.dropLast) (hnd : keysNodup (t ++ ds))
-    (hfresh : md = none → alLookup (b, k) s.metas = none)
     (hb' : s'.buckets = alInsert b (alInsert p (.file c) (t ++ ds)) s.buckets)
-    (hmetas : s'.metas = md.elim s.metas (fun m => alInsert (b, k) (.good m) s.metas))
+    (hmetas : s'.metas = md.elim (alErase (b, k) s.metas) (fun m => alInsert (b, k) (.good m) s.metas))
     (hinfos : s'.infos = alInsert (b, k) cks s.infos)
     (hu : s'.uploads = s.uploads) (hpa : s'.parts = s.parts) (hum : s'.upMetas = s.upMetas)
     (hiss : s'.issued = s.issued) :
@@ -98,7 +96,7 @@ theorem put_core {s s' : State} (hi : Inv s) {b k c : Bytes} {md : Option Meta} 
     intro x hx
     rw [hmetas]
     cases md with
-    | none => rfl
+    | none => exact alLookup_alErase_ne hx _
     | some m => exact alLookup_alInsert_ne hx _ _
   have hin : ∀ x, x ≠ (b, k) → alLookup x s'.infos = alLookup x s.infos := by
     intro x hx
@@ -113,7 +111,7 @@ theorem put_core {s s' : State} (hi : Inv s) {b k c : Bytes} {md : Option Meta} 
         unfold absMeta
         rw [hmetas]
         cases md with
-        | none => simp [hfresh rfl]
+        | none => simp [alLookup_alErase_self]
         | some m => simp [alLookup_alInsert_self]
       have h2 : (alLookup (b, k) s'.infos).getD {} = cks := by
         rw [hinfos, alLookup_alInsert_self]; rfl
@@ -128,7 +126,7 @@ theorem put_core {s s' : State} (hi : Inv s) {b k c : Bytes} {md : Option Meta} 
     · intro e he
       rw [hmetas] at he
       cases md with
-      | none => exact hi.metaOk e he
+      | none => exact hi.metaOk e (alErase_mem he)
       | some m =>
         rcases alInsert_mem he with he | he
         · subst he; simp
@@ -140,47 +138,51 @@ theorem put_core {s s' : State} (hi : Inv s) {b k c : Bytes} {md : Option Meta} 
     · rw [hum, hiss]; exact hi.upMetaIds
 
 theorem put_refines (H : Hashes) (dl : Nat) {s : State} (hi : Inv s) {b k c : Bytes} {md : Option Meta}
-    {cks : Cks} {clen : Option Int} (hg : PutOk s b k md) :
+    {cks : Cks} {clen : Option Int} (hg : PutOk s b k) :
     (step H dl s (.putObject b k c md cks clen)).2 = (StoreSpec.step H (abs s) (.putObject b k c md cks clen)).2 ∧
     abs (step H dl s (.putObject b k c md cks clen)).1 = (StoreSpec.step H (abs s) (.putObject b k c md cks clen)).1 ∧
     Inv (step H dl s (.putObject b k c md cks clen)).1 := by
-  obtain ⟨hname, ⟨hslash, hcanon⟩, hshort, hfresh, hbucket⟩ := hg
+  obtain ⟨hname, ⟨hslash, hcanon⟩, hshort, hbucket⟩ := hg
   rcases hname.cases with ⟨hbo, hbd⟩ | ⟨hbo, hbd⟩
   · -- admissible bucket name
     have hbucket := hbucket hbo
-    cases hkp : keyPath k with
+    cases ht : s.tree b with
     | none =>
-      have hko : keyOk k = false := by rw [keyOk_iff_keyPath, hkp]; rfl
-      simp [step, StoreSpec.step, hslash, objPath, hbd, hkp, hbo, hko, hi]
-    | some p =>
-      have hko : keyOk k = true := by rw [keyOk_iff_keyPath, hkp]; rfl
-      rw [hkp] at hcanon hbucket
-      simp only at hcanon hbucket
-      cases ht : s.tree b with
-      | none => rw [ht] at hbucket; exact absurd hbucket (by simp)
-      | some t =>
-        rw [ht] at hbucket
-        simp only at hbucket
+      have hh : alHas b s.buckets = false := by unfold State.tree at ht; simp [alHas, ht]
+      have habs : (abs s).bucket b = none := by rw [abs_bucket, ht]; rfl
+      simp [step, StoreSpec.step, hbd, hbo, hh, habs, hi]
+    | some t =>
+      rw [ht] at hbucket
+      simp only at hbucket
+      have hh : alHas b s.buckets = true := by unfold State.tree at ht; simp [alHas, ht]
+      have habs : (abs s).bucket b = some (absTree s b t) := by rw [abs_bucket, ht]; rfl
+      cases hkp : keyPath k with
+      | none =>
+        have hko : keyOk k = false := by rw [keyOk_iff_keyPath, hkp]; rfl
+        simp [step, StoreSpec.step, hslash, objPath, hbd, hkp, hbo, hko, hh, habs, hi]
+      | some p =>
+        have hko : keyOk k = true := by rw [keyOk_iff_keyPath, hkp]; rfl
+        rw [hkp] at hcanon hbucket
+        simp only at hcanon hbucket
         have hp : PathOk p := keyPath_pathOk hkp
         have hmem := tree_mem ht
-        have habs : (abs s).bucket b = some (absTree s b t) := by rw [abs_bucket, ht]; rfl
         by_cases hck : FsStore.checksOk H c cks = true
         · obtain ⟨ds, hds, hnd, hcommit⟩ := commitFile_ok s b p c t (by rw [ht]; rfl) hbucket (hi.tnd _ hmem) hp
           have hstep : step H dl s (.putObject b k c md cks clen) =
               ({ buckets := alInsert b (alInsert p (.file c) (t ++ ds)) s.buckets,
-                 metas := md.elim s.metas (fun m => alInsert (b, k) (.good m) s.metas),
+                 metas := md.elim (alErase (b, k) s.metas) (fun m => alInsert (b, k) (.good m) s.metas),
                  upMetas := s.upMetas, infos := alInsert (b, k) cks s.infos, uploads := s.uploads,
                  parts := s.parts, issued := s.issued },
                .put (some (etagOf H c)) cks) := by
-            cases md <;> simp [step, hslash, objPath, hbd, hkp, hck, hcommit, hshort]
+            cases md <;> simp [step, hslash, objPath, hbd, hkp, hck, hcommit, hshort, hh]
           have hspec : StoreSpec.step H (abs s) (.putObject b k c md cks clen) =
               ((abs s).setObj b k ⟨c, md.getD [], cks⟩, .put (some (etagOf H c)) cks) := by
             simp [StoreSpec.step, hbo, hko, habs, checksOk_eq, hck]
           rw [hstep, hspec]
-          exact ⟨rfl, put_core hi ht hp hcanon hbucket.2 hds hnd hfresh rfl rfl rfl rfl rfl rfl rfl⟩
+          exact ⟨rfl, put_core hi ht hp hcanon hbucket.2 hds hnd rfl rfl rfl rfl rfl rfl rfl⟩
         · have hck' : FsStore.checksOk H c cks = false := by simpa using hck
-          simp [step, StoreSpec.step, hslash, objPath, hbd, hkp, hbo, hko, habs, checksOk_eq, hck', hi]
+          simp [step, StoreSpec.step, hslash, objPath, hbd, hkp, hbo, hko, habs, checksOk_eq, hck', hh, hi]
   · -- a name both refuse
-    simp [step, StoreSpec.step, hslash, objPath, hbd, hbo, hi]
+    simp [step, StoreSpec.step, hbd, hbo, hi]
 
 end S3V.FsStore
